@@ -13,6 +13,12 @@ by walking the REAL argument objects has a stored result, and the received argum
 constructor) equal the stored results with the tasklet operations applied in plain Python."""
 from . import exectrace as X
 
+# hypotheses of this property's theorems that are other properties of the list: their ties are re-run (reduced) by
+# harness/main.py after this module's run(); a failure there is reported as a violation of this property
+HYPOTHESES = {
+    'C16': (1.0, 'tasklets, containers and wrappers declare exactly the tasks their value needs and resolve to the operation applied to the results'),
+}
+
 EVIDENCE = dict(
     level='proof',
     rule='one case = (program, schedule) -> one recorded multi-worker run; non-trivial when some task with a dependency is started; '
